@@ -188,10 +188,10 @@ func vSect(s *config.ServerConfig) string {
 
 var listenPool4 = []string{"0.0.0.0", "0.0.0.0:67", "192.0.2.1", "192.0.2.1:6767", "%eth0", "%eth0:67", "192.0.2.1%eth0:67", ":67", "", "224.0.0.1", "224.0.0.12:67",
 	"[::1]:67", "2001:db8::1", "::ffff:192.0.2.1", "[::ffff:192.0.2.1]:67", "garbage", "192.0.2.1:abc", "192.0.2.1:99999", "192.0.2.1:-1", "192.0.2.1:067", "1.2.3.4:5:6",
-	"[192.0.2.1]:67", "[192.0.2.1%lo]:67", "192.0.2.1%", "%", "239.1.2.3:67", "255.255.255.255", "192.0.2.1 192.0.2.2", "[::]", "192.0.2.1:", "]:67", "192.0.2.[1]:67"}
+	"192.0.2.1:0", "192.0.2.1:00", ":0", "192.0.2.1:-0", "192.0.2.1:+67", "[192.0.2.1]:67", "[192.0.2.1%lo]:67", "192.0.2.1%", "%", "239.1.2.3:67", "255.255.255.255", "192.0.2.1 192.0.2.2", "[::]", "192.0.2.1:", "]:67", "192.0.2.[1]:67"}
 var listenPool6 = []string{"[::]:547", "[::]", "::", "[2001:db8::1]:547", "[2001:db8::1]", "2001:db8::1", "[fe80::1%eth0]:547", "[fe80::1%eth0]", "%eth0", "[%eth0]:547", ":547", "",
 	"[ff02::1:2]:547", "[ff02::1:2]", "[ff02::1:2%lo]:547", "[ff05::1:3]:547", "[ff01::1]", "192.0.2.1", "192.0.2.1:547", "[::ffff:192.0.2.1]:547", "garbage", "[::1]:abc", "[::1]:99999",
-	"[::1", "::1]:547", "[::1]547", "[[::1]]:547", "[::1]:547:1", "[::1%lo%x]:547", "[::1] [::2]", "[::1]:", "[fe80::1%]:547"}
+	"[::1]:0", "[::1]:00", "[::1]:-0", "[::1", "::1]:547", "[::1]547", "[[::1]]:547", "[::1]:547:1", "[::1%lo%x]:547", "[::1] [::2]", "[::1]:", "[fe80::1%]:547"}
 
 func genPluginItem(c *Ctx) *ynode {
 	r := c.R
@@ -249,7 +249,15 @@ func genServer(c *Ctx, v6 bool) *ynode {
 	case 2:
 		kv = append(kv, "interface", ystr([]string{"eth0", "lo", ""}[r.Intn(3)]))
 	case 3:
-		kv = append(kv, "interface", ystr("eth0"), "listen", ystr(pool[r.Intn(len(pool))]))
+		if r.Bool() {
+			kv = append(kv, "interface", ystr("eth0"), "listen", ystr(pool[r.Intn(len(pool))]))
+		} else { // the conflict must also be detected when listen is a list (incl. an empty one)
+			items := []*ynode{}
+			for i := r.Intn(3); i > 0; i-- {
+				items = append(items, ystr(pool[r.Intn(3)]))
+			}
+			kv = append(kv, "interface", ystr("eth0"), "listen", ylist(items...))
+		}
 	case 4, 5:
 		n := r.Intn(4)
 		items := []*ynode{}
